@@ -49,3 +49,40 @@ def primitive_workload(ctx, rnd, mon, nsteps=40, random_share=0.3):
                 p = flat.pt(d)
                 tk = flat.toks(p[4], leaf)
                 prof = flat.depth_profile(tk)
+
+
+def repo_tests_workload(ctx, prop):
+    """Run the repository's own test suite with the step monitor armed (pytest plugin) and
+    merge what it observed."""
+    import json
+    import os
+    import subprocess
+    import tempfile
+
+    from .. import env
+
+    fd, out = tempfile.mkstemp(prefix="verif-plugin-", suffix=".json")
+    os.close(fd)
+    try:
+        e = {**os.environ, "PYTHONPATH": env.VERIF + os.pathsep + env.REPO, "VERIF_PLUGIN_OUT": out, "VERIF_PLUGIN_PROP": prop,
+             "PYTHONDONTWRITEBYTECODE": "1"}
+        r = subprocess.run(["/venv/bin/python", "-m", "pytest", "-q", "-p", "no:cacheprovider", "-p", "vlib.pytest_plugin", "tests"],
+                           cwd=env.REPO, env=e, capture_output=True, text=True, timeout=900)
+        try:
+            res = json.load(open(out))
+        except Exception:
+            ctx.count("repo_tests_plugin_no_result")
+            return
+        ctx.count("repo_tests_exitstatus_%d" % res["exitstatus"])
+        for k, v in res["counters"].items():
+            if k in ("apply_events", "evaluations") or k.startswith("apply:") or k.startswith("map_events:"):
+                ctx.count(k, v)
+            if k == "apply_events":
+                ctx.count("apply_events_in_repo_tests", v)
+        for v in res["violations"]:
+            ctx.violation(v["oracle"], "[while running the repository's tests] " + v["message"], v["detail"], v["mech"])
+    finally:
+        try:
+            os.unlink(out)
+        except OSError:
+            pass
